@@ -8,6 +8,7 @@
  *   x render <style> <decor> <forest> <hex>   the same, <hex> = text of <forest> by the reference writer
  *   x open                            open(file)
  *   x read [log]                      read(target[, logger of the driver])
+ *   x stat                            return code of the last read (compared with the model)
  *   x reset                           reset()
  *   x root <forest>                   replace the children of the target
  *   x end                             delete the parser, drop the target and the file, allocation balance
